@@ -148,7 +148,7 @@ def run_unit(scratch, tier):
     specs = [dict(name=n, kind=o["kind"], contract=o["contract"], functions=o["functions"], bound=o.get("bound")) for n, o in OBS.items()
              if tier == "thorough" or o.get("tier", "quick") == "quick"]
     specs.append(dict(name="canary_must_fail", kind="canary", contract="assert that must fail"))
-    obs, cmd, out = kani.run_harnesses(crate, specs, NAME, "glob", jobs=10, timeout=3000, harness_timeout=("25m" if tier == "thorough" else "4m"),
+    obs, cmd, out = kani.run_harnesses(crate, specs, NAME, "glob", jobs=10, timeout=3000, harness_timeout=("25m" if tier == "thorough" else "10m"),
                                        extra_flags=["--no-assertion-reach-checks"])
     kani.attach_counterexamples(obs, crate, "glob", out)
     return obs, meta, cmd
